@@ -69,9 +69,34 @@ class VConn(sqlite3.Connection):
         return super().execute(sql, *args)
 
 
+_by_thread: dict = {}      # thread ident -> weak references to the engine connections opened on that thread
+
+
 def _connect(*a, **kw):
+    import weakref
+
     kw.setdefault("factory", VConn)
-    return ORIG_CONNECT(*a, **kw)
+    c = ORIG_CONNECT(*a, **kw)
+    if isinstance(c, VConn):
+        _by_thread.setdefault(threading.get_ident(), []).append(weakref.ref(c))
+    return c
+
+
+def close_thread_connections() -> None:
+    """Called by a harness worker thread before it ends: its connections go away the way a dying worker's do
+    (an open transaction is rolled back by SQLite), without going through the hooks."""
+    prev = Hooks.enabled
+    Hooks.enabled = False
+    try:
+        for r in _by_thread.pop(threading.get_ident(), []):
+            c = r()
+            if c is not None:
+                try:
+                    c.close()
+                except Exception:
+                    pass
+    finally:
+        Hooks.enabled = prev
 
 
 sqlite3.connect = _connect
